@@ -727,6 +727,31 @@ def scalar_dispatch_program(rng):
         g.close()
 
 
+def degenerate_list_program(rng):
+    """List-taking functions with a list of ONE element (and two equal ones): concat / batch::concat along axes inside,
+    at MAX_DEPTH and far beyond; the same validation applies as for longer lists, on both APIs."""
+    g = Gen(rng)
+    try:
+        dims = [rng.choice([1, 2, 3]) for _ in range(rng.choice([0, 1, 2]))]
+        x = g.new_input(dims, rng.choice([1, 2]))
+        p = g.new_param(dims or [2])
+        for v in (x, p):
+            if v is None:
+                continue
+            for ax in (0, 1, len(dims), 7, 8, 9, 100, 4294967295):
+                for lst in ("V:%s" % v.name, "V:%s,%s" % (v.name, v.name)):
+                    y = g.let("concat", [lst, ax])
+                    if y is not None:
+                        g.emit("force " + y.name)
+            y = g.let("batch::concat", ["V:%s" % v.name])
+            if y is not None:
+                g.emit("force " + y.name)
+        g.emit("nops")
+        return g.lines
+    finally:
+        g.close()
+
+
 def device_program(rng):
     """Programs over several devices on both APIs: copy with the device argument omitted (the default device), copy to a
     named device, and binary functions whose LEFT operand is a scalar on another device than the right operand."""
